@@ -113,7 +113,8 @@ def _case(draw):
         if fmt == "krome":
             files.append({"fmt": "krome", "lines": [
                 "@common:user_crflux,user_Av",
-                "@var:vt_te = Tgas*8.617343e-5",
+                # KROME's own shortcuts (Te, invT, T32 ...) are available to the right-hand side of an @var line
+                draw(st.sampled_from(["@var:vt_te = Tgas*8.617343e-5", "@var:vt_te = Te", "@var:vt_te = 300.0*T32*8.617343e-5", "@var:vt_te = 8.617343e-5/invT"])),
                 "@format:idx,R,R,R,P,P,P,Tmin,Tmax,rate",
                 "1,H,E,,H+,E,E,NONE,NONE,exp(-32.7d0+13.5d0*lnTe)*vt_te",
                 "2,H+,E,,H,,,NONE,.LE.5.5e3,3.92d-13*invTe**0.6353d0*user_crflux",
